@@ -27,7 +27,8 @@ def classify_offset(toks):
     if 'offset_from_cluster' in calls:
         return 'CLUSTER'
     if ({'offset_from_sector', 'bytes_from_sectors'} & calls) and ('fs_info_sector' in fields or 'fs_info_sector' in calls) and \
-            not ({'offset_from_cluster', 'sectors_from_clusters'} & calls):
+            not ({'offset_from_cluster', 'sectors_from_clusters', 'backup_boot_sector', 'reserved_sectors'} & calls) and \
+            not ({'backup_boot_sector', 'reserved_sectors'} & fields):
         return 'FSINFO'  # sector number from the BPB field (directly or through its getter), converted to bytes
     if 'pos' in fields and not calls - {'borrow_mut', 'deref_mut'}:
         return 'ENTRY'
@@ -80,7 +81,11 @@ def run(ctx, rep):
                 edges = lab['ok'] if lab and lab['status'] == 'labelled' else {(sb, st['ret'])}
                 if edge_dominates(fn, edges, x) or (any(sb in body and x in body for body in fn.loops().values())):
                     cands.append((sb, st))
-            for sb, st in cands:
+            # the seek that positions *this* write is the last one on the way: an earlier dominating seek (e.g. the one for the
+            # primary copy of a sector that is then written a second time elsewhere) says nothing about where this write lands
+            closest = [c_ for c_ in cands if not any(c2[0] != c_[0] and c2[0] in fn.reach_from([c_[0]]) and
+                                                     c_[0] not in fn.reach_from([c2[0]]) for c2 in cands)]
+            for sb, st in (closest or cands):
                 c = classify_offset(d.of_operand(st['args'][1]))
                 if c:
                     cls = c
@@ -356,3 +361,49 @@ _run_11c = run
 def run(ctx, rep):
     _run_11c(ctx, rep)
     run_fsinfo_provenance(ctx, rep)
+
+
+# ---------------------------------------------------------------------------------------------
+# R11.7  the FS adapter marks the volume dirty after every write - a seek into the boot sector - so the device position is
+#        undefined after it: only the bounded slice, which positions the device before *each* write, may be built on it.
+#        Code that writes several pieces after one seek (the entry codecs, the LE helpers) is never instantiated on the raw
+#        adapter.
+
+RAW_ADAPTER_USERS = ('<fatfs::fs::DiskSlice as ', 'fatfs::fs::DiskSlice::', '<fatfs::fs::FsIoAdapter as ', 'fatfs::fs::fat_slice',
+                     'fatfs::io::Write::write_all', 'fatfs::io::Read::read_exact')
+
+
+def run_raw_adapter_users(ctx, rep):
+    facts = ctx.facts
+    seen = {}
+    for i in facts.instances:
+        if i['crate'] != 'fatfs':
+            continue
+        a = i['args'].lstrip('[')
+        if a.startswith('fatfs::fs::FsIoAdapter'):
+            seen.setdefault(i['fn'], i['args'][:80])
+    n = 0
+    for name, args in sorted(seen.items()):
+        f = facts.fns.get(name)
+        if f is not None and f.crate == 'fatfs-inlined':
+            continue
+        n += 1
+        ok = name.startswith(RAW_ADAPTER_USERS) or (f is not None and (f.self_ty or '').endswith(('fs::DiskSlice', 'fs::FsIoAdapter')))
+        if not ok and f is not None:
+            # a function that only builds a slice on the adapter (a renamed `fat_slice`, a geometry helper): it must not transfer
+            ok = not any((t.get('callee') or '').rsplit('::', 1)[-1] in ('write', 'write_all', 'write_u8', 'write_u16_le', 'write_u32_le',
+                                                                        'serialize') for b, t in f.calls())
+        rep.oblige('R11.7', name, ok=ok, nontrivial=True, sample={'instance': name, 'stream': args})
+        if not ok:
+            rep.violation('R11.7', vkey('R11.7', name, 'raw-adapter', ''), f.loc(f.span) if f is not None else name,
+                          '%s is instantiated on the raw FS adapter: the adapter moves the device (it rewrites the status byte) after '
+                          'a write, so everything written after the first piece lands behind the status byte in the boot sector' % name)
+    rep.counts['R11.7'] = n
+
+
+_run_11d = run
+
+
+def run(ctx, rep):
+    _run_11d(ctx, rep)
+    run_raw_adapter_users(ctx, rep)
